@@ -55,6 +55,12 @@ var outlinkSets = map[string][]outlink{
 		{"http://o.example/same", "http://page.example/b", 1, 0},
 		{"http://o.example/other", "http://page.example/a", 3, 0},
 	},
+	// the repeated value closes the batch (a page whose last link points back to one seen before)
+	"repeat-last": {
+		{"http://o.example/other", "http://page.example/a", 3, 0},
+		{"http://o.example/same", "http://page.example/a", 1, 0},
+		{"http://o.example/same", "http://page.example/b", 1, 0},
+	},
 }
 
 type scen struct {
@@ -406,7 +412,7 @@ func scenarios(tier string) []scen {
 		F, P = 3, 1
 	}
 	var out []scen
-	for _, set := range []string{"three", "repeat", "timed"} {
+	for _, set := range []string{"three", "repeat", "repeat-last", "timed"} {
 		for _, wb := range [][2]int{{2, 2}, {1, 3}, {2, 100}} { // size-triggered and ticker-triggered batches
 			if set == "timed" && wb[1] != 100 {
 				continue
